@@ -19,4 +19,5 @@ def run(chk, args):
         {"kind": "linear", "ns": "3,4,5" if q else "3,4,5,6", "count": 20 if q else 120, "classes": "superadditive,superadditive_cached,sam_apx_1"},
         {"kind": "linear", "source": "family", "ns": "3,4,5" if q else "3,4,5,6", "count": 16 if q else 100, "families": FAMS,
          "classes": "superadditive_cached,sam_apx_1"},
+        {"kind": "linear", "ns": "7", "count": 3 if q else 12, "classes": "superadditive_cached"},     # short episodes at 2^n = 128
     ])
